@@ -202,6 +202,53 @@ def routes_of(cls: ast.ClassDef) -> Optional[List[Tuple[str, str]]]:
     return routes
 
 
+def class_tables() -> List[Tuple[str, List[Tuple[str, str]]]]:
+    """(discriminator, [(key, guard)]) for every concrete node class, subclass additions applied in MRO order."""
+    # --- routes along the class hierarchy
+    own: Dict[str, Optional[List[Tuple[str, str]]]] = {}
+    bases: Dict[str, Optional[str]] = {}
+    discr: Dict[str, Optional[str]] = {}
+    for cname, rel in NODE_FILES.items():
+        c = class_def(parse(rel), cname)
+        own[cname] = routes_of(c)
+        bs = [ast.unparse(b) for b in c.bases]
+        node_bases = [b for b in bs if b in NODE_FILES]
+        if cname != "Node" and len(node_bases) != 1:
+            raise ValueError(f"{cname}: expected exactly one node base class, got {bs}")
+        bases[cname] = node_bases[0] if cname != "Node" else None
+        d = None
+        for k in c.keywords:
+            if k.arg == "discriminator" and isinstance(k.value, ast.Constant):
+                d = k.value.value
+        discr[cname] = d
+    # the override of a power method or of the request manager anywhere below Node would escape the model
+    for cname, rel in NODE_FILES.items():
+        if cname == "Node":
+            continue
+        c = class_def(parse(rel), cname)
+        if any(isinstance(n, ast.ClassDef) and n.name in ("_NodeIsOnValidator", "_NodeIsOffValidator") for n in c.body):
+            raise ValueError(f"{cname} redefines a node power validator")
+        for m in ("power_on", "power_off", "reset", "apply_timestep", "_shut_down_actions", "_start_up_actions"):
+            if any(isinstance(n, ast.FunctionDef) and n.name == m for n in c.body):
+                raise ValueError(f"{cname} overrides {m}; the power model only covers Node.{m}")
+
+    def full(cname: str) -> List[Tuple[str, str]]:
+        chain = []
+        c = cname
+        while c is not None:
+            chain.append(c)
+            c = bases[c]
+        table: Dict[str, str] = {}
+        for c in reversed(chain):
+            for k, g in (own[c] or []):
+                table[k] = g  # dict semantics of RequestManager.request_types: a later add overwrites, position kept
+        return list(table.items())
+    tables = [(discr[c], full(c)) for c in CONCRETE]
+    if any(d is None for d, _ in tables):
+        raise ValueError("a concrete node class has no literal discriminator")
+    return tables
+
+
 def _starts_with_node_guard(fn: ast.FunctionDef, call: str, ret: Optional[str]) -> bool:
     body = [s for s in fn.body if not _is_log(s)]
     if not body:
@@ -278,48 +325,7 @@ def emit() -> str:
     # --- validators
     on_pred = validator_pred(next(n for n in node.body if isinstance(n, ast.ClassDef) and n.name == "_NodeIsOnValidator"))
     off_pred = validator_pred(next(n for n in node.body if isinstance(n, ast.ClassDef) and n.name == "_NodeIsOffValidator"))
-    # --- routes along the class hierarchy
-    own: Dict[str, Optional[List[Tuple[str, str]]]] = {}
-    bases: Dict[str, Optional[str]] = {}
-    discr: Dict[str, Optional[str]] = {}
-    for cname, rel in NODE_FILES.items():
-        c = class_def(parse(rel), cname)
-        own[cname] = routes_of(c)
-        bs = [ast.unparse(b) for b in c.bases]
-        node_bases = [b for b in bs if b in NODE_FILES]
-        if cname != "Node" and len(node_bases) != 1:
-            raise ValueError(f"{cname}: expected exactly one node base class, got {bs}")
-        bases[cname] = node_bases[0] if cname != "Node" else None
-        d = None
-        for k in c.keywords:
-            if k.arg == "discriminator" and isinstance(k.value, ast.Constant):
-                d = k.value.value
-        discr[cname] = d
-    # the override of a power method or of the request manager anywhere below Node would escape the model
-    for cname, rel in NODE_FILES.items():
-        if cname == "Node":
-            continue
-        c = class_def(parse(rel), cname)
-        if any(isinstance(n, ast.ClassDef) and n.name in ("_NodeIsOnValidator", "_NodeIsOffValidator") for n in c.body):
-            raise ValueError(f"{cname} redefines a node power validator")
-        for m in ("power_on", "power_off", "reset", "apply_timestep", "_shut_down_actions", "_start_up_actions"):
-            if any(isinstance(n, ast.FunctionDef) and n.name == m for n in c.body):
-                raise ValueError(f"{cname} overrides {m}; the power model only covers Node.{m}")
-
-    def full(cname: str) -> List[Tuple[str, str]]:
-        chain = []
-        c = cname
-        while c is not None:
-            chain.append(c)
-            c = bases[c]
-        table: Dict[str, str] = {}
-        for c in reversed(chain):
-            for k, g in (own[c] or []):
-                table[k] = g  # dict semantics of RequestManager.request_types: a later add overwrites, position kept
-        return list(table.items())
-    tables = [(discr[c], full(c)) for c in CONCRETE]
-    if any(d is None for d, _ in tables):
-        raise ValueError("a concrete node class has no literal discriminator")
+    tables = class_tables()
     # --- software guards
     sw = parse("simulator/system/software.py")
     iosw = class_def(sw, "IOSoftware")
